@@ -29,6 +29,7 @@ Record case := mkcase {
   c_exact : bool;                  (* every float operation of the implementation is exact on this input *)
   c_faffs : list mat;              (* observed single-file NIfTI affines (from_dicom_wrapper), parallel to c_files *)
   c_rescale : list rescale;        (* stored pixels and scale factors of every file, parallel to c_files *)
+  c_qaff : option mat;             (* result of DicomStack.get_affine() as an early / the FIRST query on a fresh stack (None: not observed) *)
   c_T : option mat;                (* meta_ext.reorient_transform of the same conversion with embed_meta=True (None: not observed) *)
   c_obs : obs
 }.
@@ -96,10 +97,30 @@ Definition model (c : case) : res state * (state * res (geom_out * hdr_out)) :=
 Definition check_state (c : case) (st' : state) : bool :=
   nats_eqb (ids (files_info st')) (ob_order (c_obs c)) && Bool.eqb (shape_dirty st') (ob_dirty (c_obs c)).
 
+(** get_affine() on a stack that has only been filled: the model sorts first ([get_affine] starts with [get_shape]), so
+    the affine is that of the first SORTED file whatever the add order and whichever public query comes first *)
+Definition check_qaff (c : case) : bool :=
+  match c_qaff c with
+  | None => true
+  | Some A =>
+      match add_all (init (c_time c) (c_vec c)) (map g_file (c_files c)) with
+      | Err _ => false
+      | Ok st =>
+          match snd (get_affine st) with
+          | Err _ => false
+          | Ok (i0, col) =>
+              match stack_affine (c_files c) i0 col with
+              | Ok A0 => mat_close (c_exact c) A0 A
+              | Err _ => false
+              end
+          end
+      end
+  end.
+
 (** values + geometry + reported transform (C02).  The private state left behind by the call ([check_state]: order of
     _files_info, _shape_dirty) is NOT part of either check: only public results are compared. *)
 Definition check_geom (c : case) : bool :=
-  contracts_ok (c_exact c) (c_files c) (c_faffs c) && rescales_ok (c_files c) (c_rescale c) &&
+  contracts_ok (c_exact c) (c_files c) (c_faffs c) && rescales_ok (c_files c) (c_rescale c) && check_qaff c &&
   match model c with
   | (Err _, _) => false                                   (* every add of a case succeeds *)
   | (Ok _, (st', r)) =>
